@@ -316,7 +316,7 @@ def segmentEncoderAlways : List (String × List String) := [
   ("segment/rules[]", ["clauses", "id"]),
   ("segment/rules[]/clauses[]", ["attribute", "negate", "op", "values"])
 ]
-def entryPoints : List (String × String) := [("(*FeatureFlag).UnmarshalJSON", "PreprocessFlag readFeatureFlag"), ("(*Segment).UnmarshalJSON", "PreprocessSegment readSegment"), ("(FeatureFlag).MarshalJSON", "marshalFeatureFlagToWriter"), ("(Segment).MarshalJSON", "marshalSegmentToWriter"), ("(jsonDataModelSerialization).MarshalFeatureFlag", "marshalFeatureFlagToWriter"), ("(jsonDataModelSerialization).MarshalSegment", "marshalSegmentToWriter"), ("(jsonDataModelSerialization).UnmarshalFeatureFlag", "PreprocessFlag readFeatureFlag"), ("(jsonDataModelSerialization).UnmarshalSegment", "PreprocessSegment readSegment"), ("MarshalFeatureFlagToJSONWriter", "marshalFeatureFlagToWriter"), ("MarshalSegmentToJSONWriter", "marshalSegmentToWriter"), ("UnmarshalFeatureFlagFromJSONReader", "PreprocessFlag readFeatureFlag"), ("UnmarshalSegmentFromJSONReader", "PreprocessSegment readSegment"), ("easyjson:(*FeatureFlag).UnmarshalEasyJSON", "PreprocessFlag readFeatureFlag"), ("easyjson:(*Segment).UnmarshalEasyJSON", "PreprocessSegment readSegment"), ("easyjson:(FeatureFlag).MarshalEasyJSON", "marshalFeatureFlagToWriter"), ("easyjson:(Segment).MarshalEasyJSON", "marshalSegmentToWriter")]
+def entryPoints : List (String × String) := [("(*FeatureFlag).UnmarshalJSON", "‹flag-decoder› ‹flag-preprocess›"), ("(*Segment).UnmarshalJSON", "‹segment-decoder› ‹segment-preprocess›"), ("(FeatureFlag).MarshalJSON", "‹flag-encoder›"), ("(Segment).MarshalJSON", "‹segment-encoder›"), ("(jsonDataModelSerialization).MarshalFeatureFlag", "‹flag-encoder›"), ("(jsonDataModelSerialization).MarshalSegment", "‹segment-encoder›"), ("(jsonDataModelSerialization).UnmarshalFeatureFlag", "‹flag-decoder› ‹flag-preprocess›"), ("(jsonDataModelSerialization).UnmarshalSegment", "‹segment-decoder› ‹segment-preprocess›"), ("MarshalFeatureFlagToJSONWriter", "‹flag-encoder›"), ("MarshalSegmentToJSONWriter", "‹segment-encoder›"), ("UnmarshalFeatureFlagFromJSONReader", "‹flag-decoder› ‹flag-preprocess›"), ("UnmarshalSegmentFromJSONReader", "‹segment-decoder› ‹segment-preprocess›"), ("easyjson:(*FeatureFlag).UnmarshalEasyJSON", "‹flag-decoder› ‹flag-preprocess›"), ("easyjson:(*Segment).UnmarshalEasyJSON", "‹segment-decoder› ‹segment-preprocess›"), ("easyjson:(FeatureFlag).MarshalEasyJSON", "‹flag-encoder›"), ("easyjson:(Segment).MarshalEasyJSON", "‹segment-encoder›")]
 
 def evaluatorFieldTypes : List String := ["bool", "evaluation.BigSegmentProvider", "evaluation.DataProvider", "ldlog.BaseLogger"]
 def scopeFieldTypes : List String := ["*ldmodel.FeatureFlag", "*‹evaluator›", "evaluation.PrerequisiteFlagEventRecorder", "ldcontext.Context", "ldreason.BigSegmentsStatus", "map[string]evaluation.BigSegmentMembership"]
